@@ -71,6 +71,8 @@ def _refine_req(s):
         ForAll('l', lambda l: Implies(And(0 <= l, l < L), _cq('c', lambda c: Implies(s.marked.member(l, c), act.member(l, c))))),
         ForAll('l', lambda l: Implies(Or(l < 0, l >= L - 1), _cq('c', lambda c: Not(s.marked.member(l, c))))),
         # (ensure_levels has been called: the finest level carries no marks)
+        # I3: no deactivated cells on the finest level (holds initially, kept by add_level and by this function)
+        _cq('c', lambda c: Not(deact.member(L - 1, c))),
     ]
 
 
@@ -95,7 +97,8 @@ def _refine_post(s):
                 act.member(l, c) == Or(And(a0.member(l, c), Not(M.member(l, c))), And(l >= 1, M.member(l - 1, parent(c)))))))),
             ('returns-the-children', ForAll('l', lambda l: Implies(And(1 <= l, l < L), _cq('c', lambda c: s.result.member(l, c) == M.member(l - 1, parent(c)))))),
             ('level-0-region-unchanged', _cq('c', lambda c: Or(act.member(0, c), deact.member(0, c)) == Or(a0.member(0, c), d0.member(0, c)))),
-            ('lengths', And(act.len == L, deact.len == L, s.result.len == L + 1))] + \
+            ('lengths', And(act.len == L, deact.len == L, s.result.len == L + 1)),
+            ('I3-finest-level-has-no-deactivated-cells', _cq('c', lambda c: Not(deact.member(L - 1, c))))] + \
            [(lab, f) for lab, f in region_inv(act, deact, L)]
 
 
@@ -424,7 +427,11 @@ def cache_invalidation_obligations():
         o = Obligation('hierarchical:HSpace._clear_cache:resets:%s' % a_.lstrip('_'), 'rule', methods['_clear_cache'].lineno, [], None,
                        '_clear_cache() unconditionally resets the memo attribute self.%s (assigned in %s, line %d) to None' % (a_, nm, ln), src=F)
         ok = a_ in reset
-        o.status, o.backend, o.time = ('proved' if ok else 'refuted'), 'ast-frame-analysis', 0.0
+        # (refuted only if _clear_cache is the plain list of `self.__x = None` statements this analysis understands; any other way of
+        # resetting -- a loop, setattr, del -- is undecided here and left to the persistent-object checks of the bounded tier)
+        plain = all(isinstance(st_, ast.Assign) and isinstance(st_.value, ast.Constant) and st_.value.value is None or
+                    (isinstance(st_, ast.Expr) and isinstance(st_.value, ast.Constant)) for st_ in methods['_clear_cache'].body)
+        o.status, o.backend, o.time = ('proved' if ok else ('refuted' if plain else 'unknown')), 'ast-frame-analysis', 0.0
         if not ok:
             o.goal = 'self.%s is assigned in HSpace.%s (line %d) but _clear_cache() has no top-level `self.%s = None`; it resets only %s' % (
                 a_, nm, ln, a_, sorted(reset))
@@ -624,7 +631,7 @@ def _act_inv(s):
 
 def _act_post(s):
     hm = s.self.hmesh
-    return _finv(s.self.actfun, s.self.deactfun, hm.active, hm.deactivated, hm.meshes.len) + \
+    return [('I3-finest-level-has-no-deactivated-cells', _i3(hm.deactivated, hm.meshes.len))] + list(region_inv(hm.active, hm.deactivated, hm.meshes.len)) + _finv(s.self.actfun, s.self.deactfun, hm.active, hm.deactivated, hm.meshes.len) + \
         [('lengths', And(s.self.actfun.len == hm.meshes.len, s.self.deactfun.len == hm.meshes.len))]
 
 
@@ -661,3 +668,118 @@ hspace_refine_activation.callees['refine'] = hmesh_refine
 hspace_refine_activation.callees['self._functions_to_deactivate'] = functions_to_deactivate
 
 CONTRACTS = CONTRACTS + [functions_to_deactivate, hspace_refine_activation]
+
+
+# ---- adding levels: the invariants survive, and the precondition "the levels exist" of the refine contracts can be established -----------
+# I3: the finest level has no deactivated cells (refine() marks nothing on it: ensure_levels(max_lv + 2)); I3 is what makes I2 hold
+# for a freshly appended (empty) level.
+
+def _i3(deact, L):
+    return _cq('c', lambda c: Not(deact.member(L - 1, c)))
+
+
+def _levels_unchanged(new, old, L0, q):
+    return ForAll('l', lambda l: Implies(And(0 <= l, l < L0), q(lambda x: new.member(l, x) == old.member(l, x))))
+
+
+def _skip_stmt(ex, st):
+    pass
+
+
+def _append_mesh(ex, st):
+    """self.meshes.append(self.meshes[-1].refine()): one more mesh (the list only carries the number of levels in this model)"""
+    me = st.heap[st.env['self'].id]
+    c = st.heap[me.attrs['meshes'].id]
+    c.data = z3.Store(c.data, to_z3(c.length), z3.EmptySet(Cell))
+    c.length = to_z3(c.length) + 1
+
+
+hmesh_add_level = Contract(
+    F, 'HMesh.add_level',
+    params={'self': Obj(active=SetList(Cell), deactivated=SetList(Cell), meshes=SetList(Cell), P=SetList(Cell))},
+    requires=lambda s: [c for _, c in region_inv(s.self.active, s.self.deactivated, s.self.meshes.len)] + [
+        s.self.meshes.len >= 1, s.self.active.len == s.self.meshes.len, s.self.deactivated.len == s.self.meshes.len,
+        _i3(s.self.deactivated, s.self.meshes.len)],
+    modifies=('self.active', 'self.deactivated', 'self.meshes'),
+    replace=[(r'self\.meshes\.append\(self\.meshes\[-1\]\.refine\(\)\)', _append_mesh), (r'self\.P\.append\(tuple\(', _skip_stmt)],
+    ensures=lambda s: [('one-more-level', And(s.self.meshes.len == s.old.self.meshes.len + 1, s.self.active.len == s.self.meshes.len,
+                                              s.self.deactivated.len == s.self.meshes.len)),
+                       ('new-level-empty', _cq('c', lambda c: And(Not(s.self.active.member(s.old.self.meshes.len, c)),
+                                                                  Not(s.self.deactivated.member(s.old.self.meshes.len, c))))),
+                       ('old-levels-unchanged', And(_levels_unchanged(s.self.active, s.old.self.active, s.old.self.meshes.len, lambda b: _cq('c', b)),
+                                                    _levels_unchanged(s.self.deactivated, s.old.self.deactivated, s.old.self.meshes.len, lambda b: _cq('c', b)))),
+                       ('I3-finest-level-has-no-deactivated-cells', _i3(s.self.deactivated, s.self.meshes.len))] +
+                      [(lab, f) for lab, f in region_inv(s.self.active, s.self.deactivated, s.self.meshes.len)],
+    options={'timeout_ms': 60000, 'no_return_ok': True},
+    notes=['the mesh list carries only the number of levels; the refined TPMesh and the prolongation matrices appended to self.P are outside '
+           'the modelled state (C05/C19 bounded); I2 for the new level needs I3 (no deactivated cells on the old finest level)'],
+)
+
+
+def _numlevels(ex, st, ref):
+    hm = st.heap[st.heap[ref.id].attrs['hmesh'].id]
+    return to_z3(st.heap[hm.attrs['meshes'].id].length)
+
+
+_HSPACE_P = Obj(hmesh=Obj(active=SetList(Cell), deactivated=SetList(Cell), meshes=SetList(Cell), P=SetList(Cell)), actfun=SetList(Fun), deactfun=SetList(Fun))
+
+
+def _hs_inv(s_self, lab=False):
+    hm = s_self.hmesh
+    L = hm.meshes.len
+    out = list(region_inv(hm.active, hm.deactivated, L)) + [
+        ('lengths', And(L >= 1, hm.active.len == L, hm.deactivated.len == L, s_self.actfun.len == L, s_self.deactfun.len == L)),
+        ('I3-finest-level-has-no-deactivated-cells', _i3(hm.deactivated, L))] + _finv(s_self.actfun, s_self.deactfun, hm.active, hm.deactivated, L)
+    return out if lab else [f for _, f in out]
+
+
+class _HMself:
+    def __init__(self, s, old=False):
+        self.self = (s.old.self if old else s.self).hmesh
+        self._s, self._old = s, old
+
+    @property
+    def old(self):
+        return _HMself(self._s, old=True)
+
+
+hspace_add_level = Contract(
+    F, 'HSpace._add_level',
+    params={'self': _HSPACE_P},
+    requires=lambda s: _hs_inv(s.self) + [_supports_nonempty()],
+    modifies=('self.actfun', 'self.deactfun', 'self.hmesh.active', 'self.hmesh.deactivated', 'self.hmesh.meshes'),
+    callees={'add_level': hmesh_add_level},
+    ensures=lambda s: _hs_inv(s.self, lab=True) + [
+        ('one-more-level', s.self.hmesh.meshes.len == s.old.self.hmesh.meshes.len + 1),
+        ('old-levels-unchanged', And(_levels_unchanged(s.self.actfun, s.old.self.actfun, s.old.self.hmesh.meshes.len, _fq),
+                                     _levels_unchanged(s.self.deactfun, s.old.self.deactfun, s.old.self.hmesh.meshes.len, _fq),
+                                     _levels_unchanged(s.self.hmesh.active, s.old.self.hmesh.active, s.old.self.hmesh.meshes.len, lambda b: _cq('c', b)),
+                                     _levels_unchanged(s.self.hmesh.deactivated, s.old.self.hmesh.deactivated, s.old.self.hmesh.meshes.len, lambda b: _cq('c', b))))],
+    options={'timeout_ms': 60000, 'no_return_ok': True, 'assert_mode': 'check'},
+    notes=['all representation invariants (I1, I2, I3, F-inv, equal list lengths) are preserved when a level is appended: the new level has no '
+           'cells and no functions, and since supports are non-empty no function is active or deactivated there'],
+)
+
+hspace_ensure_levels = Contract(
+    F, 'HSpace._ensure_levels',
+    params={'self': _HSPACE_P, 'L': Int()},
+    requires=lambda s: _hs_inv(s.self) + [_supports_nonempty()],
+    modifies=('self.actfun', 'self.deactfun', 'self.hmesh.active', 'self.hmesh.deactivated', 'self.hmesh.meshes'),
+    callees={'self._add_level': hspace_add_level},
+    loops={0: LoopSpec(r'while self\.numlevels < L', inv=lambda s: _hs_inv(s.self, lab=True) + [
+        ('only-appends', And(s.self.hmesh.meshes.len >= s.old.self.hmesh.meshes.len,
+                             _levels_unchanged(s.self.actfun, s.old.self.actfun, s.old.self.hmesh.meshes.len, _fq),
+                             _levels_unchanged(s.self.deactfun, s.old.self.deactfun, s.old.self.hmesh.meshes.len, _fq),
+                             _levels_unchanged(s.self.hmesh.active, s.old.self.hmesh.active, s.old.self.hmesh.meshes.len, lambda b: _cq('c', b)),
+                             _levels_unchanged(s.self.hmesh.deactivated, s.old.self.hmesh.deactivated, s.old.self.hmesh.meshes.len, lambda b: _cq('c', b))))])},
+    ensures=lambda s: _hs_inv(s.self, lab=True) + [
+        ('enough-levels', s.self.hmesh.meshes.len >= s.L),
+        ('no-level-removed', s.self.hmesh.meshes.len >= s.old.self.hmesh.meshes.len),
+        ('old-levels-unchanged', And(_levels_unchanged(s.self.actfun, s.old.self.actfun, s.old.self.hmesh.meshes.len, _fq),
+                                     _levels_unchanged(s.self.hmesh.active, s.old.self.hmesh.active, s.old.self.hmesh.meshes.len, lambda b: _cq('c', b))))],
+    options={'timeout_ms': 60000, 'no_return_ok': True, 'properties': {'numlevels': _numlevels}},
+    notes=['numlevels is the property len(self.hmesh.meshes); establishes the precondition "the levels exist" of the two HSpace.refine contracts '
+           'while keeping every invariant (partial correctness; the loop terminates because each iteration adds a level)'],
+)
+
+CONTRACTS = CONTRACTS + [hmesh_add_level, hspace_add_level, hspace_ensure_levels]
